@@ -276,3 +276,126 @@ void h_count_vs_emit(void)
 	__CPROVER_assert(0, "canary");
 #endif
 }
+
+/* ================================================================== UNBOUNDED, by structural induction: the size estimate covers what the emitter writes (C11) */
+/* The tree is abstract: a node n with children c1, c2 whose own estimates are the ghost constants
+ * K1, K2 (any values 0..NINST).  Induction hypothesis = the contract of rnode_emit for a child:
+ * given room for K(child) instructions it writes at most K(child) instructions, all inside the array.
+ *  unit rx.rnode_count   : rnode_count(n) == MIN(COUNTF(n, NOREP(n)), NINST)   (recursive calls by hypothesis)
+ *  unit rx.rnode_emitnorep: one copy of n writes at most NOREP(n) instructions    (rnode_emit calls by hypothesis)
+ *  unit rx.rnode_emit    : all repetitions of n write at most COUNTF(n, N) instructions, N = what one copy writes
+ * regcomp rejects estimates >= NINST, so for an emitted tree no estimate is saturated. */
+struct ghost_cnt_in { struct rnode *n, *c1, *c2; int K1, K2; int cap; int N; int e; struct regex *p; } CK;	/* constants */
+#define KOF(x) ((x) == 0 ? 0 : (x) == CK.c1 ? CK.K1 : CK.K2)
+#define NOREP(rn_) ((rn_) == RN_ALT ? KOF(CK.c1) + KOF(CK.c2) + 2 : (rn_) == RN_CAT ? KOF(CK.c1) + KOF(CK.c2) : (rn_) == RN_GRP ? KOF(CK.c1) + 2 : 1)
+/* rnode_count's formula for a node whose single copy takes N instructions (unsaturated) */
+#define COUNTF(mi, ma, N) ((mi) == 0 && (ma) == 0 ? 0 : (mi) == 1 && (ma) == 1 ? (N) : \
+	((ma) < 0 ? ((mi) + 1) * (N) + 1 : ((mi) + (ma)) * (N) + (ma) - (mi)) + ((mi) == 0 ? 1 : 0))
+#ifndef REPS_BOUND
+#define REPS_BOUND NREPS
+#endif
+#define REPS_OK(mi, ma) (0 <= (mi) && (mi) <= REPS_BOUND && ((ma) == -1 || ((mi) <= (ma) && (ma) <= REPS_BOUND)))
+#define CK_OK() (0 <= CK.K1 && CK.K1 <= NINST && 0 <= CK.K2 && CK.K2 <= NINST && CK.c1 != CK.n && CK.c2 != CK.n && CK.n != 0)
+
+int rnode_count_contract(struct rnode *rnode)
+__CPROVER_requires(CK_OK())
+__CPROVER_requires(rnode == 0 || rnode == CK.c1 || rnode == CK.c2 || rnode == CK.n)
+__CPROVER_requires(rnode == CK.n ==> (rnode->c1 == CK.c1 && rnode->c2 == CK.c2 && REPS_OK(rnode->mincnt, rnode->maxcnt)))
+__CPROVER_assigns()
+/* children: the hypothesis; the node itself: the formula over the children's values, saturated at NINST */
+__CPROVER_ensures(rnode != CK.n ==> __CPROVER_return_value == KOF(rnode))
+__CPROVER_ensures(rnode == CK.n ==> __CPROVER_return_value ==
+	(COUNTF(rnode->mincnt, rnode->maxcnt, NOREP(rnode->rn)) < NINST ? COUNTF(rnode->mincnt, rnode->maxcnt, NOREP(rnode->rn)) : NINST))
+__CPROVER_ensures(0 <= __CPROVER_return_value && __CPROVER_return_value <= NINST)
+;
+void h_rnode_count(void)
+{
+	struct rnode *n = malloc(sizeof(*n));
+	CK.n = n; CK.c1 = nondet_bool() ? (struct rnode *) malloc(1) : (struct rnode *) 0; CK.c2 = nondet_bool() ? (struct rnode *) malloc(1) : (struct rnode *) 0;
+	CK.K1 = nondet_int(); CK.K2 = nondet_int();
+	rnode_count(nondet_bool() ? n : nondet_bool() ? CK.c1 : CK.c2);
+#ifdef CANARY
+	__CPROVER_assert(0, "canary");
+#endif
+}
+
+/* the induction hypothesis: emitting a child x with room for K(x) instructions */
+void rnode_emit_hyp_contract(struct rnode *n, struct regex *p)
+__CPROVER_requires(n == 0 || n == CK.c1 || n == CK.c2)
+__CPROVER_requires(p == CK.p && 0 <= p->n && p->n <= CK.cap - KOF(n))
+__CPROVER_assigns(p->n, __CPROVER_object_whole(p->p))
+__CPROVER_ensures(__CPROVER_old(p->n) <= p->n && p->n - __CPROVER_old(p->n) <= KOF(n))
+;
+void ratom_copy_contract(struct ratom *dst, struct ratom *src)
+__CPROVER_requires(dst != 0 && src != 0)
+__CPROVER_assigns(dst->ra, dst->s)
+;
+void rnode_emitnorep_contract(struct rnode *n, struct regex *p)
+__CPROVER_requires(0 < CK.cap && CK.cap <= 4 * NINST)
+__CPROVER_requires(__CPROVER_is_fresh(n, sizeof(*n)) && n->c1 == CK.c1 && n->c2 == CK.c2)
+__CPROVER_requires(__CPROVER_is_fresh(p, sizeof(*p)) && __CPROVER_is_fresh(p->p, CK.cap * sizeof(struct rinst)))
+__CPROVER_requires(CK_OK() && n == CK.n && p == CK.p)
+/* group numbers are handed out by rnode_grpnum, one per group node: far below 2^30 (assumption GRPNUM) */
+__CPROVER_requires(0 <= n->grp && n->grp <= NINST)
+__CPROVER_requires(n->rn == RN_ALT || n->rn == RN_CAT || n->rn == RN_GRP || n->rn == RN_ATOM)
+/* room for one copy */
+__CPROVER_requires(0 <= p->n && p->n <= CK.cap - NOREP(n->rn))
+__CPROVER_assigns(p->n, __CPROVER_object_whole(p->p))
+__CPROVER_ensures(__CPROVER_old(p->n) <= p->n && p->n - __CPROVER_old(p->n) <= NOREP(n->rn))
+;
+void h_rnode_emitnorep(void)
+{
+	struct rnode *n;
+	struct regex *p;
+	struct rnode *gn; struct regex *gp; CK.n = gn; CK.p = gp; CK.c1 = nondet_bool() ? (struct rnode *) malloc(1) : (struct rnode *) 0; CK.c2 = nondet_bool() ? (struct rnode *) malloc(1) : (struct rnode *) 0;
+	CK.K1 = nondet_int(); CK.K2 = nondet_int(); CK.cap = nondet_int();
+	rnode_emitnorep(n, p);
+#ifdef CANARY
+	__CPROVER_assert(0, "canary");
+#endif
+}
+
+/* one copy of the node, abstractly: at most N instructions */
+void rnode_emitnorep_abs_contract(struct rnode *n, struct regex *p)
+__CPROVER_requires(n == CK.n && p == CK.p && 0 <= p->n && p->n <= CK.cap - CK.N)
+__CPROVER_assigns(p->n, __CPROVER_object_whole(p->p))
+__CPROVER_ensures(__CPROVER_old(p->n) <= p->n && p->n - __CPROVER_old(p->n) <= CK.N)
+;
+void rnode_emit_contract(struct rnode *n, struct regex *p)
+__CPROVER_requires(0 < CK.cap && CK.cap <= 4 * NINST && 0 <= CK.N && CK.N <= 2 * NINST + 2)
+__CPROVER_requires(__CPROVER_is_fresh(n, sizeof(*n)) && REPS_OK(n->mincnt, n->maxcnt))
+__CPROVER_requires(__CPROVER_is_fresh(p, sizeof(*p)) && __CPROVER_is_fresh(p->p, CK.cap * sizeof(struct rinst)))
+__CPROVER_requires(n == CK.n && p == CK.p)
+/* room for the estimate, and the estimate is not saturated (regcomp rejects >= NINST) */
+__CPROVER_requires(p->n == CK.e && 0 <= p->n && COUNTF(n->mincnt, n->maxcnt, CK.N) < NINST && p->n <= CK.cap - COUNTF(n->mincnt, n->maxcnt, CK.N))
+__CPROVER_assigns(p->n, __CPROVER_object_whole(p->p))
+__CPROVER_ensures(__CPROVER_old(p->n) <= p->n && p->n - __CPROVER_old(p->n) <= COUNTF(n->mincnt, n->maxcnt, CK.N))
+;
+#pragma CPROVER check push
+#pragma CPROVER check disable "signed-overflow"
+#pragma CPROVER check disable "pointer"
+#pragma CPROVER check disable "pointer-primitive"
+#pragma CPROVER check disable "bounds"
+/* first loop: i copies written so far */
+static int inv_emit0_unused(int i, int pn, int jc, int mi)
+{
+	int z = mi == 0, M = MAX(1, mi);
+	return 0 <= i && i <= M && jc == z && CK.e + z <= pn && pn <= CK.e + z + i * CK.N;
+}
+/* second loop: i - M optional copies, each behind one fork */
+static int inv_emit1_unused(int i, int pn, int jc, int mi, int ma)
+{
+	int z = mi == 0, M = MAX(1, mi), f = ma < 0;
+	return M <= i && i <= MAX(M, ma) && jc == z + (i - M) && 0 <= jc && jc <= NREPS && CK.e + z <= pn && pn <= CK.e + z + M * CK.N + f + (i - M) * (CK.N + 1);
+}
+#pragma CPROVER check pop
+void h_rnode_emit(void)
+{
+	struct rnode *n;
+	struct regex *p;
+	struct rnode *gn; struct regex *gp; CK.n = gn; CK.p = gp; CK.cap = nondet_int(); CK.N = nondet_int(); CK.e = nondet_int();
+	rnode_emit(n, p);
+#ifdef CANARY
+	__CPROVER_assert(0, "canary");
+#endif
+}
